@@ -12,7 +12,9 @@
      -> <step>|<step>...   step = obs;obs... (one per name)
         obs = mentioned,defined,definedSimilar,used,usedSimilar,atLoad,first,last,commented,firstUse,<hex value>,found,indet
    resolve <hasExpr 0|1> <ops of mklines.allVars | -> <ops of pkg.vars | -> <hex text>     ops = op+op+...
-     -> ok <hex result> passes=<n> fuel=<n> budget=<n> | panic <site> | outoffuel *)
+     -> ok <hex result> passes=<n> fuel=<n> budget=<n> | panic <site> | outoffuel
+   defall <names> <ops of other | -> <ops of the target | ->      target.DefineAll(other)
+     -> obs;obs... (one per name, in the target) | panic <site> *)
 let ints_of (s : string) : int list =
   if s = "" then [] else List.map int_of_string (String.split_on_char '.' s)
 let cvar_of (i : int) : cvar = { v_id = n_of_int (i / 2); v_mk = (i land 1 = 1) }
@@ -85,6 +87,12 @@ let handle (args : string list) : string =
     let names = List.map bytes_of_hex (String.split_on_char '.' names) in
     let tr = scope_trace [] (List.map sop_of ops) names in
     String.concat "|" (List.map (fun step -> String.concat ";" (List.map sobs_str step)) tr)
+  | ["defall"; names; otherops; ops] ->
+    let names = List.map bytes_of_hex (String.split_on_char '.' names) in
+    (match sdefine_all (scope_run (sops_of ops)) (scope_run (sops_of otherops)) with
+     | Ok st -> String.concat ";" (List.map (fun n -> sobs_str (observe st n)) names)
+     | Panic s -> "panic " ^ string_of_int (int_of_n s)
+     | OutOfFuel -> "outoffuel")
   | ["resolve"; he; allops; pkgops; text] ->
     let sc = scope_bindings (scope_run (sops_of allops)) @ scope_bindings (scope_run (sops_of pkgops)) in
     let text = bytes_of_hex text in
